@@ -46,11 +46,12 @@ var c21CacheClasses = []int{caches.TokenCache, caches.BlacklistCache, caches.Aut
 const c21Slots = 3
 
 // Ops (A[0] = phase for all):
-//   issue     [ph, slot, user(0/1), lifetime idx]
-//   validate  [ph, slot, via(0 router,1 Validate,2 Unwrap), mutation(0 none, 1.. kinds)]
-//   revoke    [ph, slot]       unrevoke [ph, slot]      flush [ph]     purge [ph, class idx]
-//   advance   [ph, seconds]    (alone, after the phase)
-//   restart   [ph, rekey]      (alone, after the phase: caches and the store handle are lost, the store file survives)
+//
+//	issue     [ph, slot, user(0/1), lifetime idx]
+//	validate  [ph, slot, via(0 router,1 Validate,2 Unwrap), mutation(0 none, 1.. kinds)]
+//	revoke    [ph, slot]       unrevoke [ph, slot]      flush [ph]     purge [ph, class idx]
+//	advance   [ph, seconds]    (alone, after the phase)
+//	restart   [ph, rekey]      (alone, after the phase: caches and the store handle are lost, the store file survives)
 func (c21Engine) Generate(seed uint64, tier string) *simrun.Case {
 	r := sim.NewRand(seed)
 	c := &simrun.Case{Prop: "C21", Engine: "auth-hist", Seed: seed, SchedSeed: sim.Mix(seed, 21), Knobs: map[string]int64{}}
@@ -127,9 +128,9 @@ func (a *c21Store) ReadUser(session int, name string, doNotLog bool) (defs.User,
 }
 func (a *c21Store) WriteUser(session int, user defs.User) error { return nil }
 func (a *c21Store) DeleteUser(session int, name string) error   { return nil }
-func (a *c21Store) ListUsers(bool) map[string]defs.User          { return a.users }
-func (a *c21Store) Flush() error                                 { return nil }
-func (a *c21Store) Close() error                                 { return nil }
+func (a *c21Store) ListUsers(bool) map[string]defs.User         { return a.users }
+func (a *c21Store) Flush() error                                { return nil }
+func (a *c21Store) Close() error                                { return nil }
 
 type c21Tok struct {
 	str     string
@@ -241,9 +242,9 @@ func (c21Engine) Execute(t *testing.T, c *simrun.Case, keepLog bool) *simrun.Out
 				// apply this phase's mutations to "after" (their mutual order does not matter for
 				// the per-slot end state except revoke/unrevoke/flush of the same slot in one phase,
 				// where any order is possible: then the end state of that slot is unknown)
-				unknown := map[int]bool{}   // validations of this slot in this phase are not judged
-				conflict := map[int]bool{}  // the slot's revocation state after this phase is not known
-				touched := map[int]string{} // last kind of change applied to the slot in list order
+				unknown := map[int]bool{}    // validations of this slot in this phase are not judged
+				conflict := map[int]bool{}   // the slot's revocation state after this phase is not known
+				touched := map[int]string{}  // last kind of change applied to the slot in list order
 				by := map[int]map[int]bool{} // slot -> clients changing it in this phase
 				note := func(s int, cl int, kind string) {
 					if by[s] == nil {
@@ -280,6 +281,33 @@ func (c21Engine) Execute(t *testing.T, c *simrun.Case, keepLog bool) *simrun.Out
 							if after[i].exists {
 								note(i, op.C, "unrevoke")
 								after[i].revoked = false
+							}
+						}
+					}
+				}
+				// a token issued into a slot while ANOTHER client revokes / un-revokes that slot (or flushes the list) in
+				// the same phase: whether the change hits the old token, the new one or nothing depends on the
+				// interleaving, so the new token's revocation state is unknown until the next definite change
+				for _, a := range c.Ops {
+					if a.Arg(0) != ph || a.K != "issue" {
+						continue
+					}
+					s := int(a.Arg(1)) % c21Slots
+					for _, b := range c.Ops {
+						ca, cb := a.C, b.C
+						if ca < 1 || ca > nclients {
+							ca = 1
+						}
+						if cb < 1 || cb > nclients {
+							cb = 1
+						}
+						if b.Arg(0) != ph || ca == cb {
+							continue
+						}
+						if b.K == "flush" || ((b.K == "revoke" || b.K == "unrevoke") && int(b.Arg(1))%c21Slots == s) {
+							conflict[s], unknown[s] = true, true
+							if _, ok := touched[s]; !ok {
+								touched[s] = "issue"
 							}
 						}
 					}
